@@ -102,13 +102,16 @@ def run(ctx):
         if len(tagged) != len(plain):
             ctx.fail(case, 'tagging changes the number of expressions: %r vs %r' % (tagged, plain))
             continue
-        ps = probes(rng, list(R.cleaned(arg, opts).keys()))
+        want_set = set(R.cleaned(arg, opts).keys())
+        ps = probes(rng, [s for s in want_set if len(s) <= 40]) + [s for s in want_set if len(s) > 40]
         for t, p in zip(tagged, plain):
             try:
                 ct, cp = re.compile(t, R.RE_FLAGS), re.compile(p, R.RE_FLAGS)
             except re.error:
                 continue
-            diff = [s for s in ps if (ct.match(s) is None) != (cp.match(s) is None)]
+            # near-miss probes can make a long, ambiguous expression backtrack for ever: probe short ones only
+            qs = ps if len(p) <= 120 else [s for s in ps if s in want_set]
+            diff = [s for s in qs if (ct.match(s) is None) != (cp.match(s) is None)]
             if diff:
                 ctx.fail(dict(case, tagged=t, untagged=p), 'tagged %r and untagged %r disagree on %r' % (t, p, diff[:5]))
             if re.sub(r'(?<!\\)[()]', '', t.replace('\\\\', '\0\0')).replace('\0\0', '\\\\') != \
